@@ -227,7 +227,7 @@ func ruleAddChildLinks(r *core.Reporter) {
 		if a.V == nil && a.Op == token.EQL {
 			if (ir.SameValue(a.X, child) && ir.IsNilConst(a.Y)) || (ir.SameValue(a.Y, child) && ir.IsNilConst(a.X)) {
 				// true edge returns an error
-				start := ir.Pt{B: ii.If.Block().Succs[ii.EdgeWhen(true)], I: 0}
+				start := ir.EdgePt(ii.If.Block(), ii.EdgeWhen(true))
 				okNil = true
 				for x := range ir.Reach([]ir.Pt{start}, ir.Opts{}).Reached {
 					if ret, isRet := x.(*ssa.Return); isRet && ir.ReturnsNil(ret, 0) {
@@ -381,7 +381,7 @@ func ruleConsistencyGates(r *core.Reporter) {
 		for _, ii := range ir.Ifs(w.Fn) {
 			a := ii.Atom
 			if a.V == nil && a.Op == token.EQL && ((a.X == ssa.Value(cc) && ir.IsNilConst(a.Y)) || (a.Y == ssa.Value(cc) && ir.IsNilConst(a.X))) {
-				start := ir.Pt{B: ii.If.Block().Succs[ii.EdgeWhen(false)], I: 0}
+				start := ir.EdgePt(ii.If.Block(), ii.EdgeWhen(false))
 				rs := ir.Reach([]ir.Pt{start}, ir.Opts{})
 				okPanic = true
 				for in := range rs.Reached {
